@@ -186,6 +186,10 @@ structure ProtoFacts where
   cloned : Bool             -- commitTxs: blUnsp gets a clone of tx.TxOut
   deferWait : Bool          -- commitTxs: a deferred wg.Wait is installed before the first `go`
   publishLast : Bool        -- writeOne: rec.ipos is the last field written, inside db.mutex
+  dataChanBuffered : Bool   -- save: data_channel has capacity ≥ 1 (hypothesis `0 < cap` of Props.C11.no_deadlock)
+  serializeLocked : Bool    -- SerializeC: comp_pool_mutex is taken before, and held over, EVERY access to the shared
+                            -- scratch pool comp_val/comp_scr (also through local aliases of the slices) — the lock span
+                            -- covers both passes (fill, then copy out), not only the (re)allocation
   deriving DecidableEq, Repr
 
 open GocoinV.Gen.ConcFacts in
@@ -211,9 +215,16 @@ def protoFacts : ProtoFacts where
   publishLast :=
     let ws := writeOne.filter (fun e => match e with | .wr x => x == N_rec_ipos || x == N_rec_blen || x == N_rec_fpos || x == N_rec_datfileidx || x == N_rec_compressed || x == N_rec_snappied | _ => false)
     ws.getLast? == some (.wr N_rec_ipos) && ws.length == 6
+  dataChanBuffered := decide (0 < dataChanCap)
+  serializeLocked :=
+    let isPool : Ev → Bool := fun e => e == .rd N_comp_val || e == .wr N_comp_val || e == .rd N_comp_scr || e == .wr N_comp_scr
+    (unguarded [(N_comp_val, .mutex N_comp_pool_mutex 0 0), (N_comp_scr, .mutex N_comp_pool_mutex 0 0)] serializeC).isEmpty
+      && precedesAll (.lock N_comp_pool_mutex) isPool serializeC
+      && serializeC.contains (.wr N_comp_val) && serializeC.contains (.wr N_comp_scr)
+      && (serializeC.filter (fun e => e == .rd N_comp_val)).length ≥ 2   -- filled AND copied out under the lock
 
 def protoFactsOK : ProtoFacts :=
-  ⟨true, true, true, true, true, true, true, true, true, true, true, true, true, true⟩
+  ⟨true, true, true, true, true, true, true, true, true, true, true, true, true, true, true, true⟩
 
 /-! ## (c) the snapshot protocol -/
 namespace Snap
